@@ -61,6 +61,38 @@ theorem Cl_S (t : String) (h : tok t = true) : Cl d [S t] := Bk_S t 0 h
 theorem B.paren {x : Pieces} (hx : B d x) : B d ([S "("] ++ x ++ [S ")"]) :=
   Bk.close (j := 0) (Bk.appB (Bk_S "(" 1 (by decide)) hx) (Cl_S ")" (by decide))
 
+
+/-! ### template expansions (same names and shapes as in `Balance.lean`) -/
+
+theorem B_mark : B d [.raw []] := Or.inl (by decide)
+theorem B_bad : B d [.bad] := Or.inr rfl
+
+theorem getD_cases {α} (l : List α) (i : Nat) (dflt : α) : l.getD i dflt ∈ l ∨ l.getD i dflt = dflt := by
+  simp only [List.getD_eq_getElem?_getD]
+  cases h : l[i]? with
+  | none => right; rfl
+  | some x => left; simpa using List.mem_of_getElem? h
+
+theorem B_flatMap_template (rendered : List Pieces) (hr : ∀ ps ∈ rendered, B d ps) :
+    ∀ l : List Template.Piece, B d (l.flatMap (fun | .lit s => [Piece.raw s] | .val i => rendered.getD i [.bad]))
+  | [] => B_nil
+  | .lit s :: r => by
+    simp only [List.flatMap_cons]
+    exact B.app (B_raw s) (B_flatMap_template rendered hr r)
+  | .val i :: r => by
+    simp only [List.flatMap_cons]
+    refine B.app ?_ (B_flatMap_template rendered hr r)
+    rcases getD_cases rendered i [.bad] with h | h
+    · exact hr _ h
+    · rw [h]; exact B_bad
+
+theorem B_template (t : String) (rendered : List Pieces) (hr : ∀ ps ∈ rendered, B d ps) :
+    B d (rTemplate d t rendered) := by
+  simp only [rTemplate]
+  split
+  · exact B_bad
+  · exact B_flatMap_template rendered hr _
+
 /-- an explicit piece list: evaluate -/
 theorem B_of (ps : Pieces) (h : ps.all (okP d) = true) : B d ps := Or.inr h
 theorem Bk_of (ps : Pieces) (k : Nat) (h : ps.all (okP d) = true) : Bk d k ps := Or.inr h
